@@ -40,6 +40,7 @@ func ParseDateTime(value string) (DateTime, error) {
 	value = strings.TrimPrefix(value, "@")
 	for _, l := range dateTimeLayouts {
 		if t, err = time.Parse(l, value); err == nil {
+			t = fixedOffset(t)
 			// a fraction with other than three digits (10:00:00.5): keep it
 			// visible, at the millisecond step size of the DateTime type.
 			if l == dtSecondLayoutTZ && t.Nanosecond() != 0 {
@@ -225,7 +226,19 @@ func (dt DateTime) Add(input Quantity) (DateTime, error) {
 	if err != nil {
 		return DateTime{}, err
 	}
-	return DateTime{result, l}, nil
+	return DateTime{fixedOffset(result), l}, nil
+}
+
+// fixedOffset pins a parsed time to the numeric UTC offset it was written
+// with. time.Parse attaches time.Local whenever that offset is one the process
+// time zone uses; calendar arithmetic on such a value would then follow the
+// daylight-saving rules of the process time zone instead of keeping the offset.
+func fixedOffset(t time.Time) time.Time {
+	if t.Location() != time.Local {
+		return t
+	}
+	_, offset := t.Zone()
+	return t.In(time.FixedZone("", offset))
 }
 
 // layoutWithFraction returns the millisecond variant of a second-precision
